@@ -121,7 +121,8 @@ Theorem range_len_exact :
       (if negb (in_int64 start && in_int64 stop && in_int64 step) then Err
        else if step =? 0 then Err
        else if max_int64 <? seq_len start stop step then Err
-       else Ok {| r_start := start; r_stop := stop; r_step := step; r_len := seq_len start stop step |}) /    range_ [stop] = range_ [0; stop; 1] /\ range_ [start; stop] = range_ [start; stop; 1].
+       else Ok {| r_start := start; r_stop := stop; r_step := step; r_len := seq_len start stop step |}) /\
+    range_ [stop] = range_ [0; stop; 1] /\ range_ [start; stop] = range_ [start; stop; 1].
 Proof.
   intros. split; [exact (range3_exact start stop step)|]. split; reflexivity.
 Qed.
@@ -187,8 +188,13 @@ Proof. exact enumerate_exact. Qed.
    and step*k in int64 and has no error result. *)
 Theorem range_slice_refuted :
   (exists r s e k r',
-      range_ [0; 9223372036854775807; 4611686018427387904] = Ok r /      slice_indices (r_len r) (Some 0) (Some 2) None = Ok (s, e, k) /      seq_len s e k = 2 /\ range_slice r s e k = Some r' /\ r_len r' = 0) /  (exists r s e k,
-      range_ [0; 10; 4611686018427387904] = Ok r /      slice_indices (r_len r) None None (Some 4) = Ok (s, e, k) /      range_slice r s e k = None).
+      range_ [0; 9223372036854775807; 4611686018427387904] = Ok r /\
+      slice_indices (r_len r) (Some 0) (Some 2) None = Ok (s, e, k) /\
+      seq_len s e k = 2 /\ range_slice r s e k = Some r' /\ r_len r' = 0) /\
+  (exists r s e k,
+      range_ [0; 10; 4611686018427387904] = Ok r /\
+      slice_indices (r_len r) None None (Some 4) = Ok (s, e, k) /\
+      range_slice r s e k = None).
 Proof. exact range_slice_refuted. Qed.
 
 (* What does hold: under the explicit no-overflow guard (the three quantities
@@ -199,13 +205,26 @@ Theorem range_slice_exact_partial :
   forall args r s e k, range_ args = Ok r -> k <> 0 ->
     (forall j, 0 <= j < seq_len s e k -> 0 <= s + j * k < r_len r) ->
     slice_no_overflow r s e k = true ->
-    exists r', range_slice r s e k = Some r' /               r_len r' = seq_len s e k /\ r_len r' <= max_int64 /               forall j, 0 <= j < r_len r' ->
+    exists r', range_slice r s e k = Some r' /\
+               r_len r' = seq_len s e k /\ r_len r' <= max_int64 /\
+               forall j, 0 <= j < r_len r' ->
                  seq_at (r_start r') (r_step r') j = seq_at (r_start r) (r_step r) (s + j * k).
 Proof.
   intros args r s e k H Hk Hin G.
   destruct (range_slice_guarded r s e k (range_wf_of_range_ args r H) Hk Hin G) as (r' & E & W & L & A).
   exists r'. split; [exact E|]. split; [exact L|]. split; [apply W|exact A].
 Qed.
+
+(* repetition (x * n): the guard computes the exact length len(x) * n or fails
+   (count not a 32-bit value, or 2^30 elements or more); it never wraps *)
+Theorem repeat_len_exact :
+  forall I (n : T I) len, canonical I n = true -> 0 <= len <= max_int64 ->
+    repeat_len I len n =
+      if len =? 0 then Ok 0
+      else if negb (in_int32 (value I n)) then Err
+      else if value I n <? 1 then Ok 0
+      else if maxAlloc <=? len * value I n then Err else Ok (len * value I n).
+Proof. exact repeat_len_exact. Qed.
 
 (* ------------------------------------------------------------------ floats *)
 
@@ -230,7 +249,8 @@ Theorem math_floor_ceil_exact :
      | Ok i, Some z => canonical I i = true /\ value I i = z
      | Err, None => True
      | _, _ => False
-     end) /    (match math_ceil I x, (match x with NInt z => Some z | NFloat f => spec_ceil f end) with
+     end) /\
+    (match math_ceil I x, (match x with NInt z => Some z | NFloat f => spec_ceil f end) with
      | Ok i, Some z => canonical I i = true /\ value I i = z
      | Err, None => True
      | _, _ => False
@@ -242,13 +262,14 @@ Proof. exact math_floor_ceil_lemma. Qed.
    through a rounded conversion; both operand orders *)
 Theorem int_float_compare_exact :
   forall I c (x : T I) f,
-    Compare_if I c x f = spec_compare_if c (value I x) f /    Compare_fi I c f x = spec_compare_fi c f (value I x).
+    Compare_if I c x f = spec_compare_if c (value I x) f /\
+    Compare_fi I c f x = spec_compare_fi c f (value I x).
 Proof. exact compare_int_float_lemma. Qed.
 
 (* Int.Float(): every path is the round-to-nearest-even conversion of the value,
    the shortcut for more than 1024 bits returns the infinity of the right sign *)
 Theorem int_to_float_paths :
-  forall I, impl_ok I -> forall (x : T I), canonical I x = true ->
+  forall I (x : T I), canonical I x = true ->
     Int_Float I x = if 1024 <? bitlen (value I x) then S754_infinity (value I x <? 0) else Z_to_float (value I x).
 Proof. exact Int_Float_lemma. Qed.
 
@@ -262,7 +283,8 @@ Proof. exact parse_print_lemma. Qed.
 
 Theorem parse_print_decimal_and_literals :
   forall z,
-    (int_of_string (print_int 10 z) None = Some z /\ parseInt (print_int 10 z) 0 = Some z) /    (forall base, base = 2 \/ base = 8 \/ base = 16 ->
+    (int_of_string (print_int 10 z) None = Some z /\ parseInt (print_int 10 z) 0 = Some z) /\
+    (forall base, base = 2 \/ base = 8 \/ base = 16 ->
        parseInt (print_prefixed base z) 0 = Some z /\ parseInt (print_prefixed base z) base = Some z).
 Proof. intros z. split; [exact (parse_print_decimal_lemma z)|]. intros base. exact (parse_prefixed_lemma base z). Qed.
 
@@ -274,16 +296,14 @@ Proof. exact int_of_string_spec_lemma. Qed.
 
 (* Non-vacuity of the range / float / slice premises *)
 Example range_float_premises_hold :
-  let r := {| r_start := -9223372036854775808; r_stop := 9223372036854775807; r_step := 3; r_len := 6148914691236517206 |} in
+  let r := {| r_start := -9223372036854775808; r_stop := 9223372036854775807; r_step := 3; r_len := 6148914691236517205 |} in
+  let q := {| r_start := 0; r_stop := 10; r_step := 2; r_len := 5 |} in
   let f := S754_finite false 6755399441055744 (-52) in   (* 1.5 *)
   range_ [-9223372036854775808; 9223372036854775807; 3] = Ok r /\
-  range_getIndex r (-1) = Ok 9223372036854775807 /\
-  range_has union_impl r (NInt 9223372036854775807) = Ok true /\
+  range_getIndex r (-1) = Ok 9223372036854775804 /\
+  range_has union_impl r (NInt 9223372036854775804) = Ok true /\
   valid_float f = true /\ range_has union_impl r (NFloat f) = Ok false /\
   NumberToInt union_impl (NFloat f) = Ok (Small 1) /\
-  (exists q, range_ [0; 10; 2] = Ok q /\ slice_no_overflow q 1 4 2 = true /\ seq_len 1 4 2 = 2 /\ r_len q = 5 /\
-             range_slice q 1 4 2 = Some {| r_start := 2; r_stop := 8; r_step := 4; r_len := 2 |}).
-Proof.
-  vm_compute. repeat split.
-  exists {| r_start := 0; r_stop := 10; r_step := 2; r_len := 5 |}. repeat split.
-Qed.
+  range_ [0; 10; 2] = Ok q /\ slice_no_overflow q 1 4 2 = true /\ seq_len 1 4 2 = 2 /\
+  range_slice q 1 4 2 = Some {| r_start := 2; r_stop := 8; r_step := 4; r_len := 2 |}.
+Proof. vm_compute. repeat split. Qed.
